@@ -192,6 +192,56 @@ async def _special_session(loop, backend):
     return fails
 
 
+async def _configured_session(loop, config):
+    """servers and clients built with options other than the defaults: what a listing reports is still what the backend
+    holds.  config "encoding:<name>": both sides use that encoding, the names are such that their encoded bytes also
+    happen to be valid UTF-8; config "permissions": a table that closes some of the children of an open directory - a
+    listing of the parent still shows them (permissions decide who may ENTER or READ an entry, not whether it exists)"""
+    fails = []
+    kw, ckw, perms = {}, {}, ()
+    names_files = ["plain.txt"]
+    if config.startswith("encoding:"):
+        enc = config.split(":", 1)[1]
+        kw["encoding"] = ckw["encoding"] = enc
+        names_files += {"latin-1": ["caf\u00c3\u00a9.txt", "dir \u00c2\u00a71", "\u00d0\u00b0\u00d0\u00b1.bin", "fa\u00e7ade"], "cp1251": ["\u0420\u00b0\u0420\u00b1.bin", "\u0436\u0443\u043a"]}[enc]
+    else:
+        perms = [("/", True, True), ("/private", False, False), ("/pub/secret.txt", False, True), ("/pub/ro", True, False)]
+    wd = W.World(loop, [W.UserSpec(None, None, perms=perms)], server_kwargs=kw)
+    await wd.start()
+    try:
+        tree = [(("pub",), None), (("private",), None), (("private", "x"), b"x"), (("pub", "secret.txt"), b"s"), (("pub", "ro"), None), (("pub", "open.txt"), b"o")]
+        tree += [(("pub", nm), b"data") for nm in names_files]
+        wd.set_tree(tree)
+        truth = {"/": sorted(p[0] for p, c in tree if len(p) == 1), "/pub": sorted(p[1] for p, c in tree if len(p) == 2 and p[0] == "pub")}
+        client = aioftp.Client(**ckw)
+        await client.connect("127.0.0.1", wd.port)
+        await client.login()
+        for flavour in ("MLSD", "LIST"):
+            for d, want in truth.items():
+                try:
+                    got = sorted(p.name for p, info in await client.list(d, raw_command=flavour))
+                except Exception as e:  # noqa
+                    fails.append("%s of %s (%s) raised %s: %s" % (flavour, d, config, type(e).__name__, str(e)[:100]))
+                    client.close()
+                    client = aioftp.Client(**ckw)
+                    await client.connect("127.0.0.1", wd.port)
+                    await client.login()
+                    continue
+                if got != want:
+                    fails.append("%s of %s (%s) reports %r, the backend holds %r" % (flavour, d, config, [x for x in got if x not in want] or got, [x for x in want if x not in got] or want))
+        try:
+            await client.quit()
+        except Exception:
+            client.close()
+        await loop.settle()
+    finally:
+        try:
+            await wd.stop()
+        except Exception:
+            wd.finish()
+    return fails
+
+
 async def _big_dir_session(loop, backend, n):
     """a directory with many entries (more than any batch size a backend may use internally): every entry once"""
     wd = W.World(loop, [W.UserSpec(None, None)], backend=backend)
@@ -240,6 +290,17 @@ def run(ctx):
             continue
         if fails:
             res.oracle_failures.append({"input": {"kind": "wire-special-files", "backend": backend}, "what": fails[0], "signature": "C07:wire:entry-type-differs-from-backend"})
+    for config in ("encoding:latin-1", "encoding:cp1251", "permissions"):
+        res.cases += 1
+        res.count("wire_configured_" + config)
+        res.distinct.add(("wire-configured", config))
+        try:
+            fails = simnet.run(_configured_session, config)
+        except BaseException as e:  # noqa
+            res.disagreements.append({"correspondence": "C07 wire harness", "input": ["configured", config], "impl": "%s: %s" % (type(e).__name__, e)})
+            continue
+        if fails:
+            res.oracle_failures.append({"input": {"kind": "wire-configured", "config": config}, "what": fails[0], "signature": "C07:wire:listing-differs-from-backend"})
     for backend in ("memory", "pathio", "async"):
         for n in ((128, 129, 300) if not ctx.thorough() else (1, 127, 128, 129, 255, 256, 257, 300, 1025)):
             res.cases += 1
@@ -286,6 +347,10 @@ def run(ctx):
 
 
 def replay(inp):
+    if inp.get("kind") == "wire-configured":
+        fails = simnet.run(_configured_session, inp["config"])
+        print(fails)
+        return bool(fails)
     if inp.get("kind") == "wire-big-directory":
         fails = simnet.run(_big_dir_session, inp["backend"], inp["entries"])
         print(fails)
